@@ -82,7 +82,8 @@ func c05xOffsetFiles() (out [][]byte) {
 }
 
 // c05xObjStmFiles: object streams whose members exercise the look-ahead of
-// getFromObjStm/referenceTail (reader.go): an integer member followed by what
+// getFromObjStm/scanner.readReferenceTail (first version: referenceTail in reader.go, a hand
+// parser over a 64-byte window): an integer member followed by what
 // may or may not complete "n g R" within the member's extent, which ends at
 // the next larger offset of the index (64 bytes at most).  Members 6, 7, 8 of
 // object stream 5; index = the given offsets, body = the given bytes.
@@ -93,6 +94,7 @@ func c05xObjStmFiles() (out [][]byte, notes []string) {
 		body string
 	}
 	sp70 := strings.Repeat(" ", 70)
+	pad := func(t string, n int) string { return t + strings.Repeat(" ", max(0, n-len(t))) }
 	lays := []lay{
 		{"member '2 0 R'", [3]int{0, 6, 12}, "2 0 R 7 0 R (x)"},
 		{"integer at the very end", [3]int{0, 4, 8}, "(a) (b) 7"},
@@ -132,6 +134,20 @@ func c05xObjStmFiles() (out [][]byte, notes []string) {
 		{"offset beyond the data", [3]int{0, 1000, 2000}, "2 0 R"},
 		{"real number, not an integer", [3]int{0, 14, 18}, "2.0 0 R       (a) (b)"},
 		{"empty body", [3]int{0, 0, 0}, ""},
+		// readReferenceTail (scanner.go) reads the tail with the scanner: no 64-byte window any more
+		{"comment between integer and generation", [3]int{0, 14, 18}, "2 %c\n 0 R    (a) (b)"},
+		{"signed generation", [3]int{0, 14, 18}, "2 +0 R        (a) (b)"},
+		{"generation with seven zeros", [3]int{0, 14, 18}, "2 0000000 R   (a) (b)"},
+		{"2000-byte comment between integer and generation", [3]int{0, 2100, 2110}, pad("2 %"+strings.Repeat("c", 2000)+"\n0 R", 2100) + "(a)       (b)"},
+		{"2000-byte comment, never ended", [3]int{0, 2100, 2110}, pad("2 %"+strings.Repeat("c", 2000), 2100) + "(a)       (b)"},
+		{"5000 blanks behind the integer", [3]int{0, 5100, 5110}, pad("2"+strings.Repeat(" ", 5000)+"0 R", 5100) + "(a)       (b)"},
+		{"5000 blanks behind the generation", [3]int{0, 5100, 5110}, pad("2 0"+strings.Repeat(" ", 5000)+"R", 5100) + "(a)       (b)"},
+		{"5000 blanks, then the end of the stream", [3]int{0, 0, 0}, "2" + strings.Repeat(" ", 5000)},
+		{"5000 blanks and 0 R as the last member", [3]int{4, 8, 0}, "2   (a) (b) 3" + strings.Repeat(" ", 5000) + "0 R"},
+		{"R beyond the next offset", [3]int{0, 1030, 1040}, pad("2"+strings.Repeat(" ", 1024)+"0 R", 1040) + "(b)"},
+		{"300 digits of generation", [3]int{0, 400, 410}, pad("2 "+strings.Repeat("7", 300)+" R", 400) + "(a)       (b)"},
+		{"generation is a real number", [3]int{0, 14, 18}, "2 0.0 R       (a) (b)"},
+		{"generation negative", [3]int{0, 14, 18}, "2 -1 R        (a) (b)"},
 	}
 	for _, l := range lays {
 		body := l.body
